@@ -163,7 +163,9 @@ static void client (void *arg) {
 			} else ip++;
 			wa.v = S.cv; wa.funcs = &nsync_cv_waitable_funcs;
 			rt_dead_clear (t);
+			S.picked[t] = 0;
 			r = nsync_wait_n (S.mu, v_lock, v_unlock, deadline (o->dl), 1, &pwa);
+			if (S.picked[t] && r != 0) rt_violation ("O-ret", "an nsync_wait_n on a cv that a signal/broadcast had unlinked (consumed wake-up) returned count (timeout) instead of 0");
 			if (S.nwrec[t]) rt_dead_mark ((char *) S.nwrec[t] - offsetof (struct nsync_waiter_s, waiting), sizeof (struct nsync_waiter_s), t, "nsync_wait_n record");
 			S.ret[t] = r;
 			if (r == 1 && !(o->dl > 0 && rt_now () >= RT_T0 + o->dl))
@@ -358,6 +360,14 @@ static void note_step (int t) {
 	if ((o->kind == OP_ST || o->kind == OP_LD) && o->addr && rt_stack_owner (o->addr) >= 0) {
 		rt_op_fn (o, fb, sizeof fb);
 		if (!strcmp (fb, "nsync_wait_n") || !strcmp (fb, "cv_enqueue") || !strcmp (fb, "cv_ready_time")) S.nwrec[rt_stack_owner (o->addr)] = o->addr;
+	}
+	if (o->kind == OP_ST && o->a == 0 && o->addr) {
+		/* a signaller that clears the waiting flag of another thread's nsync_wait_n record has unlinked it: it owes that call index 0 */
+		int j;
+		for (j = 0; j < S.n; j++) if (j != t && S.nwrec[j] == (nsync_atomic_uint32_ *) o->addr) {
+			rt_op_fn (o, fb, sizeof fb);
+			if (!strcmp (fb, "wake_non_native_waiter") || !strcmp (fb, "wake_waiters") || !strcmp (fb, "nsync_cv_signal") || !strcmp (fb, "nsync_cv_broadcast")) S.picked[j] = 1;
+		}
 	}
 	if (o->kind == OP_CAS && o->ok && o->addr) {
 		scan_waiters ();
